@@ -70,6 +70,7 @@ pub(crate) fn run() -> (Result<(), Error>, Option<StdinLogReader>) {
             let mut ptx = ProcessTransaction::new(&mut ps, TransactionBehavior::Immediate)?;
             let f = if !ptx.state().env().target().as_os_str().is_empty()
                 && !ptx.state().env().is_unlocked()
+                && !ptx.state().env().no_deps()
             {
                 let mut me = PathBuf::new();
                 me.push(ptx.state().env().startdir());
